@@ -50,7 +50,7 @@ Definition default_tick_hours : Z := 24.
 Inductive config :=
 | CHours (v : Z)      (* Configure with facts[TicksSinceStart.TickSize] = v *)
 | CDefault            (* Configure without that fact *)
-| CDirect (ns : Z).   (* the public field TickSize assigned, Configure not called *)
+| CDirect (ns : Z).   (* Configure without that fact, then the public field TickSize assigned *)
 
 (* Configure: time.Duration(val) * time.Hour in int64 *)
 Definition configure (c : config) : Z :=
@@ -230,6 +230,14 @@ Fixpoint shape (ops : list op) : option commit :=
   | [] => None
   | OConsume _ i c :: rest => if (i =? 0) && forallb index_nonzero rest then Some c else None
   | _ :: ops' => shape ops'
+  end.
+
+(* operations on a branch that does not exist change nothing (RBad) and are not part of the history *)
+Fixpoint effective (ops : list op) (outs : list out) : list op :=
+  match ops, outs with
+  | o :: ops', r :: outs' =>
+      match r with RBad => effective ops' outs' | _ => o :: effective ops' outs' end
+  | _, _ => []
   end.
 
 Definition times (l : list event) : list Z := map (fun e => c_when (fst e)) l.
